@@ -266,6 +266,10 @@ func (l *Gsub2_1) apply(ctx *Context, a, b int) int {
 		return -1
 	}
 
+	if idx >= len(l.Repl) || len(l.Repl[idx]) == 0 {
+		// an empty replacement sequence cannot be applied
+		return -1
+	}
 	repl := l.Repl[idx]
 	seq[a].GID = repl[0]
 	k := len(repl)
